@@ -11,6 +11,7 @@ from loguru import logger
 
 FINALIZED = collections.Counter()
 STEPS = []
+AFTER = {}      # faulty simulator -> number of requests it received after it had failed
 
 
 class LSim(mosaik_api_v3.Simulator):
@@ -22,24 +23,47 @@ class LSim(mosaik_api_v3.Simulator):
         self.meta['type'] = typ
         return self.meta
     def create(self, num, model): return [{'eid': 'e', 'type': model}]
+    def _exc(self):
+        # fault kind 'raise' (RuntimeError) or 'raise:<ExceptionClass>' / 'raise:plain:<ExceptionClass>'
+        name = self.fault[2].split(':')[-1] if ':' in self.fault[2] else 'RuntimeError'
+        AFTER[self.sid] = 0
+        self.failed = True
+        return {'RuntimeError': RuntimeError, 'StopIteration': StopIteration, 'KeyError': KeyError, 'ValueError': ValueError}[name]('injected fault')
+    def _seen(self):
+        if getattr(self, 'failed', False): AFTER[self.sid] += 1
     def _fault(self, kind):
         f = self.fault
         if f and f[0] == kind and self.n[kind] == f[1]:
-            raise RuntimeError('injected fault')
+            raise self._exc()
         self.n[kind] += 1
     def setup_done(self):
-        if self.fault and self.fault[0] == 'setup_done': raise RuntimeError('injected fault')
+        if self.fault and self.fault[0] == 'setup_done': raise self._exc()
     def step(self, time_, inputs, max_advance):
+        self._seen()
         STEPS.append((time.time(), self.sid, time_))
         yield asyncio.sleep(0)
         self._fault('step')
         return time_ + 1 if self.typ == 'time-based' else None
     def get_data(self, outputs):
+        self._seen()
         yield asyncio.sleep(0)
         self._fault('get_data')
         return {'e': {'po': self.n['step']}}
     def finalize(self):
         FINALIZED[self.sid] += 1
+
+
+class PSim(LSim):
+    """the same simulator with plain (non-generator) handlers, as most in-process simulators are written"""
+    def step(self, time_, inputs, max_advance):
+        self._seen()
+        STEPS.append((time.time(), self.sid, time_))
+        self._fault('step')
+        return time_ + 1 if self.typ == 'time-based' else None
+    def get_data(self, outputs):
+        self._seen()
+        self._fault('get_data')
+        return {'e': {'po': self.n['step']}}
 
 
 def children():
@@ -65,10 +89,10 @@ class TaskWarnings(logging.Handler):
 
 def one(topology, faulty, fkind, req, index, remote):
     """topology: 'chain' A->B->C or 'pair' A->B ; faulty: index of the failing simulator"""
-    FINALIZED.clear(); STEPS.clear()
+    FINALIZED.clear(); STEPS.clear(); AFTER.clear()
     logf = tempfile.mktemp(prefix='c14-', suffix='.log', dir=common.BUILD)
     n = 2 if topology in ('pair', 'trig') else 3
-    cfg = {'L': {'python': 'harness.props.c14:LSim'},
+    cfg = {'L': {'python': 'harness.props.c14:LSim'}, 'P': {'python': 'harness.props.c14:PSim'},
            'R': {'cmd': f'{common.PY} -m harness.remote_sim %(addr)s', 'env': {'PYTHONPATH': f'{common.REPO}:{common.VERIF}', 'LOGURU_LEVEL': 'CRITICAL'}}}
     tw = TaskWarnings(); alog = logging.getLogger('asyncio'); old_level = alog.level
     alog.addHandler(tw); alog.setLevel(logging.ERROR)
@@ -89,7 +113,7 @@ def one(topology, faulty, fkind, req, index, remote):
             elif remote == 'all':
                 ents.append(w.start('R', sim_id=f'S{i}', beh={'type': 'time-based', 'step_size': 1, 'default_output': [None, ['po']]}, log=logf, seed=i, fault=None).M())
             else:
-                ents.append(w.start('L', sim_id=f'S{i}', fault=fault, typ=('event-based' if topology == 'trig' and i == 1 else 'time-based')).M())
+                ents.append(w.start('P' if (i == faulty and ':plain:' in fkind) else 'L', sim_id=f'S{i}', fault=fault, typ=('event-based' if topology == 'trig' and i == 1 else 'time-based')).M())
         for i in range((n - 1) if topology != 'free' else 1):
             w.connect(ents[i], ents[i + 1], ('po', 'i'))      # 'free': A->B and an unconnected third simulator
         try:
@@ -127,6 +151,7 @@ def one(topology, faulty, fkind, req, index, remote):
         pass
     res['pending_task_warnings'] = tw.n
     res['finalized'] = dict(FINALIZED)
+    res['requests_after_failure'] = dict(AFTER)
     res['remote_error_logged'] = any('aborted the simulation' in e for e in errors)
     alog.removeHandler(tw); alog.setLevel(old_level); logger.remove(sink_id)
     if os.path.exists(logf): os.remove(logf)
@@ -138,6 +163,8 @@ def monitor(n, faulty, remote, fkind, res):
     if res['outcome'] == 'HANG': bad.append('run() did not terminate within 6 s')
     elif res['outcome'] == 'returned' and not res['remote_error_logged']: bad.append('run() returned normally without reporting the failure')
     if res['elapsed'] > 4.5: bad.append(f"run() took {res['elapsed']} s")
+    for sid, k in res.get('requests_after_failure', {}).items():
+        if k: bad.append(f'the failed simulator {sid} received {k} more request(s) after its failure')
     if not res['loop_closed']: bad.append('event loop not closed')
     for i in range(n):
         if i == faulty: continue
@@ -157,6 +184,11 @@ def cases(tier):
                 for index in idxs:
                     if req == 'get_data' and (faulty == n - 1 or (topology == 'free' and faulty >= 1)): continue      # the last simulator has no connected outputs: get_data is never requested
                     out.append((topology, faulty, 'raise', req, index, False))
+                    # other exception classes, generator-style and plain handlers (in-process)
+                    if index <= 1 and (tier == 'thorough' or topology in ('pair', 'trig')):
+                        for fk in ('raise:plain:RuntimeError', 'raise:plain:StopIteration', 'raise:StopIteration', 'raise:plain:KeyError'):
+                            if tier == 'thorough' or fk != 'raise:plain:KeyError':
+                                out.append((topology, faulty, fk, req, index, False))
                     if tier == 'thorough' or (index <= 1 and topology == 'pair') or (topology == 'chain' and faulty == 1 and index == 1):
                         out.append((topology, faulty, 'raise', req, index, True))
                         out.append((topology, faulty, 'exit', req, index, True))
@@ -193,7 +225,7 @@ def run(out, info, tier, seed):
         out.violations.append(dict(kind='fault', observed=[f'{zombies} zombie child processes']))
     out.coverage = {'evaluations': n_eval, 'distinct_nontrivial': nontriv,
                     'rule': 'topologies pair (A->B) and chain (A->B->C) x failing simulator x request (setup_done, step #0/#1/#3, get_data #0/#2) x fault kind '
-                            '(exception in handler; for subprocess simulators also os._exit) x transport of the failing simulator (in-process / subprocess; thorough: all combinations); '
+                            '(exception in handler: RuntimeError / StopIteration / KeyError raised by generator-style and by plain handlers; for subprocess simulators also os._exit) x transport of the failing simulator (in-process / subprocess; thorough: all combinations); '
                             'non-trivial = fault during the stepping phase',
                     'samples': samples, 'outcome_histogram': dict(hist), 'monitor_failures': len(violations), 'zombie_children': zombies}
 
